@@ -12,7 +12,9 @@ Judgement per token (see DESIGN.md C05):
     destination at that position of its stream (unique names: its own unique name);
   * body, message type and header fields 1..6, 8, 9 identical to what was sent;
   * per (sender, recipient) deliveries in send order;
-  * accounted exactly once: one delivery XOR one error from the bus to the sender (REPLY_SERIAL = the token's serial);
+  * a connection reads a token at most once whatever match rules it holds; a connection that does not own the
+    destination may read one copy only if it holds an eavesdrop='true' rule selecting the message (counted apart);
+  * accounted exactly once: one addressed delivery XOR one error from the bus to the sender (REPLY_SERIAL = the token's serial);
     NoReply for a call that went to a connection which later closed its socket is not an 'error' in this sense;
   * nothing at all is acceptable only if (a) the sender or a possible addressee closed its socket in the round in
     which the token was sent, or (b) the token is not a method call and the destination had no owner at some moment
@@ -51,6 +53,7 @@ class View(object):
         self.frames = []            # wire.Message, arrival order
         self.closed_round = None    # round in which the test closed this socket (None: alive to the end)
         self.requested = {}         # well-known name -> first round in which this connection asked for it
+        self.rules = []             # match rules held from set-up on (parse_simple_rule dicts)
         self.last_serial = 0        # serials 1..last_serial were completely written by this connection
         self.peer_serials = set()   # serials of tokens addressed to peers (everything else went to the driver)
 
@@ -116,10 +119,45 @@ def ownership_gaps(obs, marks):
     return gaps, changes, set(first_old)
 
 
+RULE_TYPE = {1: b"method_call", 2: b"method_return", 3: b"error", 4: b"signal"}
+
+
+def parse_simple_rule(text):
+    """The match rules C05 hands out only use type / interface / member / path / eavesdrop with plainly quoted values."""
+    d = {}
+    for part in text.split(b","):
+        k, v = part.split(b"=", 1)
+        d[k] = v.strip(b"'")
+    return d
+
+
+def rule_matches(rule, m):
+    """Does a (simple) rule select the message as sent?  Only the keys above; eavesdrop is not a selector."""
+    k = m.known()
+    if b"type" in rule and RULE_TYPE.get(m.type) != rule[b"type"]:
+        return False
+    if b"interface" in rule and k.get(2) != rule[b"interface"]:
+        return False
+    if b"member" in rule and k.get(3) != rule[b"member"]:
+        return False
+    if b"path" in rule and k.get(1) != rule[b"path"]:
+        return False
+    return True
+
+
+def eavesdrops(v, m):
+    return any(r.get(b"eavesdrop") == b"true" and rule_matches(r, m) for r in v.rules)
+
+
 def judge(tokens, views, obs, marks, unreliable=()):
     """Returns (violations, stats, sigs): violations = list of (key, what, token or None, view idx or None).
     unreliable: indices of views whose own NameAcquired/NameLost stream is known to be incomplete (the bus logged that it
-    dropped a signal it had originated for them); the recipient-is-owner clause is not judged for those."""
+    dropped a signal it had originated for them); the recipient-is-owner clause is not judged for those.
+
+    Every sighting of a token by a connection is classified: 'addressed' (the connection owned the destination at that
+    point of its own stream), 'eavesdropped' (it did not, but holds an eavesdrop='true' rule selecting the message: it
+    has been granted eavesdropping and may see ONE copy) or misdelivered.  Whatever rules a connection holds, it must
+    see a token at most once."""
     V = []
     stats = collections.Counter()
     sigs = set()
@@ -128,17 +166,26 @@ def judge(tokens, views, obs, marks, unreliable=()):
     view_of = {v.idx: v for v in views}
     by_unique = {v.unique: v for v in views}
     nrounds = len(marks) - 1
-    deliveries = collections.defaultdict(list)       # tid -> [(view idx, position)]
+    sightings = collections.defaultdict(list)        # tid -> [(view idx, position, class)]
     bus_errors = collections.defaultdict(list)       # tid -> [error name]
     bus_replies = collections.defaultdict(lambda: collections.defaultdict(list))   # view idx -> reply serial -> [msg]
 
     for v in views:
         owned = {v.unique}
         last = {}
+        is_eaves = any(r.get(b"eavesdrop") == b"true" for r in v.rules)
         for pos, m in enumerate(v.frames):
             k = m.known()
             snd = k.get(7)
             if snd == BUS:
+                if k.get(6) is not None and k.get(6) != v.unique:
+                    # bus-originated traffic for somebody else (only an eavesdropper may be shown it)
+                    if is_eaves:
+                        stats["eavesdropped-bus-frames"] += 1
+                    else:
+                        V.append(("bus-frame-for-another-connection", "connection #%d read a bus-originated frame addressed to %r"
+                                  % (v.idx, k.get(6)), None, v.idx))
+                    continue
                 if m.type == 4 and k.get(2) == BUS and len(m.body) == 1:
                     if k.get(3) == b"NameAcquired":
                         owned.add(m.body[0])
@@ -157,25 +204,42 @@ def judge(tokens, views, obs, marks, unreliable=()):
                 continue
             tid = token_of(m, by_tid)
             if tid is None:
+                if k.get(6) == BUS and eavesdrops(v, m):
+                    stats["eavesdropped-calls-to-the-driver"] += 1      # somebody's RequestName / barrier / ...
+                    continue
                 V.append(("unattributable-frame:%s" % TYPE_NAME.get(m.type, "other"),
                           "connection #%d read a frame that is neither bus-originated nor carries a token: type=%d fields=%r"
                           % (v.idx, m.type, m.fields), None, v.idx))
                 continue
             t = by_tid[tid]
-            deliveries[tid].append((v.idx, pos))
             stats["deliveries-checked"] += 1
-            if t.destkind == "driver":
+            granted = eavesdrops(v, t.msg)
+            if t.destkind != "driver" and t.dest in owned:
+                cls = "addressed"
+            elif granted:
+                cls = "eavesdropped"
+                stats["eavesdropped-copies"] += 1
+            elif t.destkind == "driver":
+                cls = "misdelivered"
                 V.append(("driver-call-delivered-to-client", "a call addressed to org.freedesktop.DBus was delivered to #%d" % v.idx, t, v.idx))
-                continue
-            if t.dest not in owned and v.idx in unreliable:
+            elif v.idx in unreliable:
+                cls = "addressed"
                 stats["ownership-unjudged:bus-signal-to-recipient-dropped"] += 1
-            elif t.dest not in owned:
+            else:
+                cls = "misdelivered"
                 who = "other-connection"
                 if t.dest in v.requested or t.dest == v.unique:
                     who = "not-owner-at-that-point"
                 V.append(("wrong-recipient:%s:%s" % (t.destkind, who),
                           "delivered to #%d (%s), which by its own NameAcquired/NameLost stream did not own %s at that point "
-                          "(it owned %r)" % (v.idx, v.unique.decode(), t.dest.decode("latin1"), sorted(owned)), t, v.idx))
+                          "(it owned %r) and holds no eavesdrop rule selecting the message"
+                          % (v.idx, v.unique.decode(), t.dest.decode("latin1"), sorted(owned)), t, v.idx))
+            sightings[tid].append((v.idx, pos, cls))
+            if cls == "addressed" and granted:
+                stats["addressed-recipient-held-a-matching-eavesdrop-rule"] += 1
+                stats["addressed+eavesdrop-rule:" + TYPE_NAME.get(t.mtype, "?") + (":no-reply" if t.mtype == 1 and t.flags & 1 else "")] += 1
+            elif cls == "addressed" and v.rules:
+                stats["addressed-recipient-held-other-rules"] += 1
             d = compare(t.msg, m)
             if d:
                 V.append(("altered:%s:%s" % (TYPE_NAME.get(t.mtype, "?"), ",".join(d)),
@@ -205,7 +269,15 @@ def judge(tokens, views, obs, marks, unreliable=()):
 
     for t in tokens:
         sv = view_of[t.sender]
-        dl = deliveries.get(t.tid, [])
+        seen = sightings.get(t.tid, [])
+        # exactly once per connection, whatever rules it holds
+        per_conn = collections.Counter(i for i, _, _ in seen)
+        for i, n in sorted(per_conn.items()):
+            if n > 1:
+                held = "holding-eavesdrop-rule" if eavesdrops(view_of[i], t.msg) else ("holding-rules" if view_of[i].rules else "no-rules")
+                V.append(("delivered-%d-times:%s:one-connection:%s" % (n, t.kind(), held),
+                          "connection #%d read the token %d times (classes %s)" % (i, n, [c for j, _, c in seen if j == i]), t, i))
+        dl = [(i, pos) for i, pos, c in seen if c == "addressed"]
         if t.destkind == "driver":
             reps = bus_replies[t.sender].get(t.serial, [])
             if sv.closed_round is not None:
@@ -219,15 +291,15 @@ def judge(tokens, views, obs, marks, unreliable=()):
                     V.append(("driver-answer-wrong:%s" % t.note.strip().split("=")[-1], "driver answered %s" % why, t, t.sender))
                 t.outcome = "driver:answered"
             stats["outcome:" + t.outcome] += 1
-            sigs.add(("driver", t.note.strip(), t.outcome))
+            sigs.add(("driver", t.note.strip(), t.outcome, bool(seen)))
             continue
         errs = list(bus_errors.get(t.tid, []))
         noreply = []
+        recips = set(i for i, _ in dl)
         if dl:
-            recips = set(i for i, _ in dl)
-            if len(dl) > 1:
-                V.append(("delivered-%d-times:%s:%s" % (len(dl), t.kind(), "one-connection" if len(recips) == 1 else "several-connections"),
-                          "token delivered %d times (to %s)" % (len(dl), sorted(recips)), t, dl[0][0]))
+            if len(recips) > 1:
+                V.append(("delivered-%d-times:%s:several-connections" % (len(recips), t.kind()),
+                          "token delivered as addressed message to %d connections (%s)" % (len(recips), sorted(recips)), t, dl[0][0]))
             # NoReply is legitimate once the connection the call went to has closed its socket
             if any(view_of[i].closed_round is not None for i in recips):
                 noreply = [e for e in errs if e == NOREPLY]
@@ -272,13 +344,17 @@ def judge(tokens, views, obs, marks, unreliable=()):
             stats["tokens-racing-an-ownership-change"] += 1
             if dl:
                 stats["delivered-while-ownership-changed"] += 1
-        sigs.add((t.mtype, t.flags & 3, t.destkind, t.outcome, min(raced, 2)))
+        rules_of_recipient = 0
+        for i in recips:
+            rules_of_recipient = 2 if eavesdrops(view_of[i], t.msg) else max(rules_of_recipient, 1 if view_of[i].rules else 0)
+        sigs.add((t.mtype, t.flags & 3, t.destkind, t.outcome, min(raced, 2), rules_of_recipient,
+                  any(c == "eavesdropped" for _, _, c in seen)))
 
     # deliveries of one name in one round that went to more than one connection = an observed hand-over under load
     split = collections.defaultdict(set)
     for t in tokens:
-        for i, _ in deliveries.get(t.tid, []):
-            if t.destkind == "well-known":
+        for i, _, c in sightings.get(t.tid, []):
+            if t.destkind == "well-known" and c == "addressed":
                 split[(t.dest, t.round)].add(i)
     stats["rounds-with-deliveries-split-by-handover"] += sum(1 for s in split.values() if len(s) > 1)
 
